@@ -162,7 +162,7 @@ class Check:
         self.seed = seed
         self.level = level
         self.t0 = time.time()
-        self.out = os.path.join(VERIF, "out", pid)
+        self.out = os.path.join(VERIF, "out", pid + os.environ.get("VERIF_OUT_SUFFIX", ""))
         # clean scratch but keep stored violations of earlier runs
         if os.path.isdir(self.out):
             for n in os.listdir(self.out):
@@ -410,7 +410,12 @@ class Check:
         ev = dict(property_id=self.pid, tier=self.tier, seed=self.seed, level=self.level,
                   coverage=cov, assumptions=self.assumptions, wall_s=round(wall, 1),
                   violations=len(self.violations))
-        write_evidence(self.pid, ev)
+        if os.environ.get("VERIF_MUTATION") or os.environ.get("VERIF_OUT_SUFFIX"):
+            # control runs never overwrite the registered evidence
+            with open(os.path.join(self.out, "evidence.json"), "w") as fo:
+                json.dump(ev, fo, indent=1, default=str)
+        else:
+            write_evidence(self.pid, ev)
         if self.violations:
             return 1
         log("OK property=%s tier=%s seed=%d wall=%.0fs states=%d traces=%d evaluations=%d" % (
